@@ -137,6 +137,35 @@ func check(c sim.ChainCase) error {
 		acc := cs.Elements
 		sc := sizeClass(acc.NumLeaves)
 		h := int(cs.Index.Height)
+		// every other height the probed element is the last one of a batching transaction: genuine live elements of
+		// every kind come first (inputs, a revised contract, contracts resolved by expiration, renewal and storage proof)
+		sim.BatchPrefix = nil
+		defer func() { sim.BatchPrefix = nil }()
+		if h%2 == 1 {
+			var pre types.V2Transaction
+			if l := ch.Store.SortedSC(); len(l) > 0 {
+				pre.SiacoinInputs = []types.V2SiacoinInput{{Parent: l[0].Copy()}}
+			}
+			if l := ch.Store.SortedSF(); len(l) > 0 {
+				pre.SiafundInputs = []types.V2SiafundInput{{Parent: l[0].Copy()}}
+			}
+			if l := ch.Store.SortedV2FC(); len(l) > 0 {
+				pre.FileContractRevisions = []types.V2FileContractRevision{{Parent: l[0].Copy()}}
+				pre.FileContractResolutions = []types.V2FileContractResolution{
+					{Parent: l[len(l)-1].Copy(), Resolution: &types.V2FileContractExpiration{}},
+					{Parent: l[len(l)/2].Copy(), Resolution: &types.V2FileContractRenewal{}},
+				}
+				if len(ch.Store.CI) > 0 {
+					pre.FileContractResolutions = append(pre.FileContractResolutions, types.V2FileContractResolution{Parent: l[0].Copy(),
+						Resolution: &types.V2StorageProof{ProofIndex: ch.Store.CI[len(ch.Store.CI)-1].Copy()}})
+				}
+			}
+			if acc.ValidateTransactionElements(pre) != nil {
+				return stats.Failf("C04/batch-prefix", "height %d: a transaction of genuine live elements only is refused by ValidateTransactionElements", cs.Index.Height)
+			}
+			sim.BatchPrefix = &pre
+			sc += "/batched"
+		}
 		// rotate through the store so that different elements are examined at different heights
 		pick := func(n int) []int {
 			if n == 0 {
